@@ -20,7 +20,7 @@ Qed.
 Lemma count_nl_le (s : bstr) : (Z.of_N (count_nl s) <= Z.of_nat (length s))%Z.
 Proof. induction s as [|c s IH]; cbn [count_nl length]; [lia|]. destruct (c =? 10); lia. Qed.
 
-Lemma take_length_le (n : nat) (s : bstr) : (length (take n s) <= length s)%nat.
+Lemma st_take_length_le (n : nat) (s : bstr) : (length (take n s) <= length s)%nat.
 Proof. revert s; induction n as [|n IH]; intros [|c s]; cbn [take length]; try lia. specialize (IH s). lia. Qed.
 
 Lemma go_slice_prefix (s : bstr) (p : N) :
@@ -51,7 +51,7 @@ Proof.
   rewrite (go_slice_prefix whole pos Hpos). cbn [go_bind]. f_equal.
   rewrite go_count_byte_nl. unfold line_at.
   pose proof (count_nl_le (take (N.to_nat pos) whole)) as H1.
-  pose proof (take_length_le (N.to_nat pos) whole) as H2.
+  pose proof (st_take_length_le (N.to_nat pos) whole) as H2.
   rewrite go_wrap_s_id; [lia|lia|].
   change (2 ^ (64 - 1))%Z with 9223372036854775808%Z.
   change (2 ^ 62)%Z with 4611686018427387904%Z in Hlen. lia.
